@@ -9,6 +9,7 @@ Run-time contract on the REAL imperative.com.Com.compute_wp / get_vcs and impera
       of the range.
 Programs: skip / assignment / sequence / conditional / annotated loop over integer variables x, y, nesting
 depth <= 3, conditions from a small assertion language."""
+import os
 import copy
 import itertools
 import random
@@ -152,10 +153,69 @@ def nested(e):
     return False
 
 
+BOOL_OPS = ('-->', '|', '&', '~')
+ARITH_OPS = ('+', '-', '*')
+
+
+def print_class(e):
+    """Why the parenthesis-free text of e may legitimately fail to mean e (the recorded finding about Op.__str__),
+    or None when the text of e is unambiguous for the grammar of cond_parser (then print/parse MUST agree):
+    'bool-parens'  - a boolean operand needs parentheses under the priorities  --> (right assoc) < | < & < ~
+    'arith-parens' - an arithmetic operand needs parentheses that Op.__str__ does not write."""
+    from imperative import expr as E
+    found = set()
+
+    def top(a):
+        if isinstance(a, E.Op) and a.op in BOOL_OPS and not (a.op == '-' and len(a.args) == 1):
+            return a.op
+        if isinstance(a, E.ITE):
+            return 'ite'
+        return 'atom'
+
+    def walk(a, last=True):
+        """last: nothing follows the text of a inside its parent (an if-then-else swallows what follows)"""
+        if isinstance(a, E.ITE):
+            if not last:
+                found.add('bool-parens')
+            walk(a.cond, False)
+            walk(a.e1, False)
+            walk(a.e2, last)
+        elif isinstance(a, E.Op) and len(a.args) == 2 and a.op in ('-->', '|', '&'):
+            l, r = a.args
+            allowed_l = {'-->': ('|', '&', '~', 'atom'), '|': ('&', '~', 'atom'), '&': ('~', 'atom')}[a.op]
+            allowed_r = {'-->': ('-->', '|', '&', '~', 'atom', 'ite'), '|': ('|', '&', '~', 'atom', 'ite'),
+                         '&': ('&', '~', 'atom', 'ite')}[a.op]
+            if top(l) not in allowed_l or top(r) not in allowed_r:
+                found.add('bool-parens')
+            walk(l, False)
+            walk(r, last)
+        elif isinstance(a, E.Op) and len(a.args) == 1 and a.op == '~':
+            if top(a.args[0]) not in ('atom', 'ite'):
+                found.add('bool-parens')
+            walk(a.args[0], last)
+        elif isinstance(a, E.Op):
+            # comparison or arithmetic
+            for k, b in enumerate(a.args):
+                if a.op in ARITH_OPS and isinstance(b, E.Op) and b.op in ARITH_OPS:
+                    written = a.op == '*' and len(b.args) == 2 and b.op in ('+', '-')
+                    left_assoc_ok = k == 0 and len(a.args) == 2 and len(b.args) == 2 and (
+                        (a.op in ('+', '-') and b.op in ('+', '-', '*')) or (a.op == '*' and b.op == '*'))
+                    right_ok = k == 1 and len(b.args) == 2 and a.op == '+' and b.op == '*'
+                    if not (written or left_assoc_ok or right_ok):
+                        found.add('arith-parens')
+                walk(b, last and k == len(a.args) - 1)
+    walk(e)
+    if 'bool-parens' in found:
+        return 'bool-parens'
+    if 'arith-parens' in found:
+        return 'arith-parens'
+    return None
+
+
 def run(tier='quick', seed=0):
     t0 = time.time()
-    if '/repo' not in sys.path:
-        sys.path.insert(0, '/repo')
+    if os.environ.get('HOLPY_REPO', '/repo') not in sys.path:
+        sys.path.insert(0, os.environ.get('HOLPY_REPO', '/repo'))
     from logic import basic
     basic.load_theory('hoare')
     from imperative import expr as E, com as C
@@ -173,7 +233,21 @@ def run(tier='quick', seed=0):
     n = 1500 if tier == 'quick' else 25000
     for it in range(n):
         c = gen_com(rng, rng.choice([1, 2, 2, 3]))
+        if rng.random() < 0.25:
+            # an assignment followed by a conditional / loop whose guard reads the assigned variable
+            v_ = rng.choice(['x', 'y'])
+            guard = E.Op(rng.choice(['==', '<', '<=', '!=']), E.Var(v_), gen_arith(rng, 1))
+            c = C.Seq(C.Assign(v_, gen_arith(rng, 1)), C.Cond(guard, gen_com(rng, 1), gen_com(rng, 1)))
+            if rng.random() < 0.3:
+                c = C.Seq(gen_com(rng, 1), c)
         P, Q = gen_cond(rng, 1), gen_cond(rng, 1)
+        if rng.random() < 0.5:
+            # precondition = the computed weakest precondition itself (its VC is trivially valid, so the triple is
+            # decided by the run alone); loops keep their own VCs
+            try:
+                P = copy.deepcopy(c).compute_wp(Q)
+            except Exception:
+                pass
         text = '{%s} %s {%s}' % (P, show_com(c), Q)
         c2 = copy.deepcopy(c)
         try:
@@ -193,7 +267,7 @@ def run(tier='quick', seed=0):
                 back = cond_parser.parse(str(vc))
             except Exception as e:
                 violations.append({'function': 'imperative.expr.Op.__str__',
-                                   'clause': 'print-parse:nested' if nested(vc) else 'print-parse:flat',
+                                   'clause': 'print-parse:' + (print_class(vc) or 'unambiguous-text'),
                                    'what': 'printed condition %r does not parse: %s' % (str(vc), str(e)[:80]),
                                    'program': text})
                 continue
@@ -203,7 +277,7 @@ def run(tier='quick', seed=0):
                 diff = None
             if diff is not None:
                 violations.append({'function': 'imperative.expr.Op.__str__',
-                                   'clause': 'print-parse:nested' if nested(vc) else 'print-parse:flat',
+                                   'clause': 'print-parse:' + (print_class(vc) or 'unambiguous-text'),
                                    'what': 'condition %r is printed as %r, which parses to a condition that differs '
                                            'at %s' % (repr(vc), str(vc), diff), 'program': text})
         # the strings handed out by get_vcs are the printed forms of exactly these conditions
@@ -237,18 +311,20 @@ def run(tier='quick', seed=0):
                 break
         if len(samples) < 4:
             samples.append({'program': text, 'vcs': [str(v) for v in vcs]})
-    seen = set()
+    seen = {}
     uniq = []
+    by_clause = {}
     for v in violations:
-        k = (v['function'], v['clause'], v['what'][:40])
-        if k not in seen:
-            seen.add(k)
+        by_clause[v['clause']] = by_clause.get(v['clause'], 0) + 1
+        k = (v['function'], v['clause'])
+        if seen.get(k, 0) < 3:          # at most three witnesses per (function, clause), every clause represented
+            seen[k] = seen.get(k, 0) + 1
             uniq.append(v)
     return {'name': 'c20_programs', 'rule': 'random annotated while-programs (depth <= 3) over x, y with random pre/'
             'post-conditions; VCs checked on [-7,7]^2, runs from [-2,2]^2 with fuel 12 that stay in range; '
             'non-trivial = distinct programs all of whose VCs are valid', 'evaluations': evals,
             'distinct_nontrivial': len(distinct), 'valid_programs': valid_programs, 'samples': samples,
-            'violations': uniq[:12], 'n_violations': len(uniq), 'secs': round(time.time() - t0, 1)}
+            'violations': uniq[:24], 'n_violations': len(uniq), 'violations_by_clause': by_clause, 'secs': round(time.time() - t0, 1)}
 
 
 if __name__ == '__main__':
